@@ -1,7 +1,11 @@
 package main
 
 import (
+	"fmt"
+	"os"
 	"path/filepath"
+	"strconv"
+	"strings"
 	"time"
 )
 
@@ -200,4 +204,42 @@ func checkC16(c *Ctx) {
 func init() {
 	checks["C16"] = checkC16
 	replayers["C16"] = replaySemCase(&SemOpts{})
+}
+
+func checkC17(c *Ctx) {
+	o := &SemOpts{}
+	cfg := "FamMath_quick.cfg"
+	if c.Tier == "thorough" {
+		cfg = "FamMath_thorough.cfg"
+	}
+	c.runSemFamily("FamMath", cfg, o, 60*time.Minute)
+	// clock: the current Unix time in seconds (the specification leaves the value open; the harness knows the time)
+	f := filepath.Join(c.Work, "clock.bn")
+	src, _ := Render([]string{"K:print", "I:clock", "(", ")", ";", "L:2", "K:print", "I:clock", "(", ")", "<=", "I:clock", "(", ")", ";"}, nil)
+	os.WriteFile(f, []byte(src), 0644)
+	t0 := float64(time.Now().UnixNano()) / 1e9
+	r := c.runCLI([]string{f}, "", 10*time.Second)
+	t1 := float64(time.Now().UnixNano()) / 1e9
+	lines := strings.Split(strings.TrimSpace(r.Out), "\n")
+	bad := ""
+	if r.Exit != 0 || len(lines) != 2 {
+		bad = fmt.Sprintf("exit %d, output %q, stderr %q", r.Exit, r.Out, clip(r.Err, 100))
+	} else if v, err := strconv.ParseFloat(lines[0], 64); err != nil || v < t0-5 || v > t1+5 {
+		bad = fmt.Sprintf("clock() printed %q, the Unix time is %.3f", lines[0], t0)
+	} else if lines[1] != "true" {
+		bad = "clock() went backwards"
+	}
+	if bad != "" {
+		c.violation("C17|clock|value", "print clock();", map[string]interface{}{"mode": "cli", "src": src, "detail": bad})
+	}
+	c.addInt("traces_validated_against_impl", 1)
+	c.cov("exhaustive", true)
+	c.cov("rule", "FamMath: every built-in x 0..MaxArgs arguments x every combination of 8 argument kinds (pruned beyond arity+1); abs, sqrt, round, sin, cos, tan on 30 boundary values and NRandom seeded random doubles (abs, sqrt, round exactly; sin/cos within 4 ulp and tan within 8 ulp of fdlibm, exact at 0, NaN, Inf); pow on a 17x17 boundary grid, exact where every correct pow agrees and within 64 ulp otherwise, and pow(a,b) == a**b; min/max over all tuples of length <= 3 over 4 values (list and array form), signed zeros, empty and nested arrays; clock() against the harness clock")
+	semAssumptions(c)
+	c.Ev.Assumptions = append(c.Ev.Assumptions, "accuracy of the platform's math library: 4 ulp (sin, cos), 8 ulp (tan), 64 ulp (pow) relative to StrictMath (fdlibm)")
+}
+
+func init() {
+	checks["C17"] = checkC17
+	replayers["C17"] = replaySemCase(&SemOpts{})
 }
